@@ -21,9 +21,11 @@ Record defects := mkDefects {
   d_scroll_noclip : bool;   (* #18 _scrollrectset does not clip to the ancestors' bounds *)
   d_focus_nolost  : bool;   (* #19 take_focus does not unfocus a descendant *)
   d_key_twice     : bool;   (* #20 a stealing first child is offered a key again *)
-  d_flush_noclip  : bool    (* #27 flush hands damage beyond the root's bounds to the root *)
+  d_flush_noclip  : bool;   (* #27 flush hands damage beyond the root's bounds to the root *)
+  d_notify_noout  : bool;   (* #28 a notifying parent is not told OUT when the focus moves between its children *)
+  d_chain_norestore : bool  (* #29 show/hide/close change the focus chain without requesting a cursor restore *)
 }.
-Definition no_defects := mkDefects false false false false.
+Definition no_defects := mkDefects false false false false false false.
 
 (* ------------------------------------------------------------------------------------ *)
 (* Windows                                                                               *)
@@ -537,41 +539,44 @@ Definition win_new (st : root) (id pid : Z) (r : rect) (hidden lowest rootparent
   end.
 
 (* tickit_window_close (with the purge of queued restacks, the repair of defect #17) *)
-Definition win_close (st : root) (id : Z) : root :=
+Definition win_close (cfg : defects) (st : root) (id : Z) : root :=
   match t_chain id (r_tree st) with
   | Some (w :: p :: _) =>
     let pid := t_id p in
     let tr1 := t_upd_kids (kids_remove id) pid (r_tree st) in
     let tr2 := t_update (fun j => if opt_eqb (w_fchild j) id then set_fchild j None else j) pid tr1 in
-    let st1 := set_queue (set_orphans (set_tree st tr2) (w :: r_orphans st))
+    let st0 := set_queue (set_orphans (set_tree st tr2) (w :: r_orphans st))
                          (filter (fun e => match e with (_, p', w') => negb ((p' =? id) || (w' =? id)) end)
                                  (r_queue st)) in
+    let st1 := if opt_eqb (w_fchild (t_info p)) id && negb (d_chain_norestore cfg)
+               then request_restore st0 else st0 in
     if w_vis (t_info w) then win_expose st1 pid (Some (w_rect (t_info w))) else st1
   | _ => st
   end.
 
 (* tickit_window_show *)
-Definition win_show (st : root) (id : Z) : root :=
+Definition win_show (cfg : defects) (st : root) (id : Z) : root :=
   match t_chain id (r_tree st) with
   | None => st
   | Some chain =>
     let tr1 := t_update (fun j => set_vis j true) id (r_tree st) in
-    let tr2 :=
+    let '(tr2, linked) :=
       match chain with
       | w :: p :: _ =>
         let i := t_info w in
-        t_update (fun j => match w_fchild j with
-                           | None => if (match w_fchild i with Some _ => true | None => false end) || w_focused i
-                                     then set_fchild j (Some id) else j
-                           | Some _ => j
-                           end) (t_id p) tr1
-      | _ => tr1
+        let link := match w_fchild (t_info p) with
+                    | None => (match w_fchild i with Some _ => true | None => false end) || w_focused i
+                    | Some _ => false
+                    end in
+        (if link then t_update (fun j => set_fchild j (Some id)) (t_id p) tr1 else tr1, link)
+      | _ => (tr1, false)
       end in
-    win_expose (set_tree st tr2) id None
+    let st1 := set_tree st tr2 in
+    win_expose (if linked && negb (d_chain_norestore cfg) then request_restore st1 else st1) id None
   end.
 
 (* tickit_window_hide *)
-Definition win_hide (st : root) (id : Z) : root :=
+Definition win_hide (cfg : defects) (st : root) (id : Z) : root :=
   match t_chain id (r_tree st) with
   | None => st
   | Some chain =>
@@ -579,7 +584,9 @@ Definition win_hide (st : root) (id : Z) : root :=
     match chain with
     | w :: p :: _ =>
       let tr2 := t_update (fun j => if opt_eqb (w_fchild j) id then set_fchild j None else j) (t_id p) tr1 in
-      win_expose (set_tree st tr2) (t_id p) (Some (w_rect (t_info w)))
+      let st1 := set_tree st tr2 in
+      win_expose (if opt_eqb (w_fchild (t_info p)) id && negb (d_chain_norestore cfg) then request_restore st1 else st1)
+                 (t_id p) (Some (w_rect (t_info w)))
     | _ => set_tree st tr1
     end
   end.
@@ -672,10 +679,13 @@ Fixpoint focus_gained (cfg : defects) (chain : list Z) (child : option Z) (tree 
     | Some wn =>
       let i := t_info wn in
       let '(tree1, ev1) :=
-        match w_fchild i, child with
-        | Some fc, Some c => if negb (fc =? c) then t_at focus_lost fc tree else (tree, [])
-        | Some fc, None => if d_focus_nolost cfg then (tree, []) else t_at focus_lost fc tree
-        | None, _ => (tree, [])
+        match w_fchild i with
+        | Some fc =>
+          if (match child with Some c => negb (fc =? c) | None => negb (d_focus_nolost cfg) end) then
+            let '(tr, e) := t_at focus_lost fc tree in
+            (tr, e ++ (if w_notify i && negb (d_notify_noout cfg) then [(w, false, fc)] else []))
+          else (tree, [])
+        | None => (tree, [])
         end in
       (* the focus moves on to a descendant: this window no longer holds it (repair of #19) *)
       let '(tree1, ev1b) :=
